@@ -1187,9 +1187,10 @@ func (lhs *Path) Compare(rhs *Path) int {
 		return -1
 	}
 
-	if !lhs.IsIBGP() && rhs.IsIBGP() {
+	// as in the best path selection, a path from a confederation member is internal
+	if !isInternalPath(lhs) && isInternalPath(rhs) {
 		return 1
-	} else if lhs.IsIBGP() && !rhs.IsIBGP() {
+	} else if isInternalPath(lhs) && !isInternalPath(rhs) {
 		return -1
 	}
 
